@@ -42,8 +42,8 @@ Bin(l, o, r) == [T |-> "BinaryExpression", Left |-> l, Operator |-> o, Right |->
 NBin(l, o, r) == [T |-> "BinaryExpression", Left |-> l, Operator |-> o, Right |-> r, Not |-> TRUE]
 IsNull(e)    == [T |-> "BinaryExpression", Left |-> e, Operator |-> "IS NULL", Right |-> NullLit]
 IsNotNull(e) == [T |-> "BinaryExpression", Left |-> e, Operator |-> "IS NULL", Right |-> NullLit, Not |-> TRUE]
-NotE(e)      == [T |-> "UnaryExpression", Operator |-> 2, Expr |-> e]
-Neg(e)       == [T |-> "UnaryExpression", Operator |-> 1, Expr |-> e]
+NotE(e)      == [T |-> "UnaryExpression", Operator |-> "Not", Expr |-> e]     \* operator kinds by constant name
+Neg(e)       == [T |-> "UnaryExpression", Operator |-> "Minus", Expr |-> e]
 Btw(e, l, u) == [T |-> "BetweenExpression", Expr |-> e, Lower |-> l, Upper |-> u]
 NBtw(e, l, u) == [T |-> "BetweenExpression", Expr |-> e, Lower |-> l, Upper |-> u, Not |-> TRUE]
 InL(e, xs)   == [T |-> "InExpression", Expr |-> e, List |-> xs]
@@ -127,7 +127,7 @@ Fill(t, k) ==
 IsIsNull(t) == t.T = "BinaryExpression" /\ t.Operator = "IS NULL"
 IsLike(t)   == t.T = "BinaryExpression" /\ t.Operator = "LIKE"
 Level(t) == CASE t.T = "BinaryExpression" -> (IF IsIsNull(t) \/ IsLike(t) THEN 4 ELSE LevelOfBin(t.Operator))
-              [] t.T = "UnaryExpression" -> (IF t.Operator = 2 THEN 3 ELSE 7)
+              [] t.T = "UnaryExpression" -> (IF t.Operator = "Not" THEN 3 ELSE 7)
               [] t.T \in {"BetweenExpression", "InExpression"} -> 4
               [] t.T = "CastExpression" -> 8
               [] OTHER -> 9
@@ -171,7 +171,7 @@ R(t, need, mode, idx) ==
                     rn == IF lv = 4 THEN 5 ELSE lv + 1 IN
                 R(t.Left, ln, mode, idx + 1) \o <<t.Operator>> \o R(t.Right, rn, mode, idx + 1 + NOps(t.Left))
           [] t.T = "UnaryExpression" ->
-                IF t.Operator = 2 THEN <<"NOT">> \o R(t.Expr, 4, mode, idx + 1) ELSE <<"-">> \o R(t.Expr, 8, mode, idx + 1)
+                IF t.Operator = "Not" THEN <<"NOT">> \o R(t.Expr, 4, mode, idx + 1) ELSE <<"-">> \o R(t.Expr, 8, mode, idx + 1)
           [] t.T = "CastExpression" -> R(t.Expr, 8, mode, idx + 1) \o <<"::", t.Type>>
           [] t.T = "BetweenExpression" ->
                 R(t.Expr, 5, mode, idx + 1) \o (IF HasNot(t) THEN <<"NOT", "BETWEEN">> ELSE <<"BETWEEN">>)
